@@ -160,40 +160,55 @@ func recoverAndJudge(s *Sim, secondCrashCycle int) []Violation {
 	}
 	ref := times[len(times)-4]
 	bad := quiescent(s.Snaps[s.CurSnap()], refTimes{promises: ref, locks: ref, schedules: ref, tasks: ref}, len(roots) <= s.Cfg.TaskBatchSize)
-	// "resumes from the stored state" is not a convergence claim (that is C11): a sweep that runs at its full batch
-	// size in every cycle after ref has resumed, however large the arrivals (per-second schedules with a batch
-	// size of one out-produce it, and the promise sweep reads in no particular order). Only a sweep that leaves
-	// overdue rows behind while serving fewer than its batch size has not resumed.
-	served := func(prefix, table string, isServed func(c core.Change) bool) int {
-		perCycle := map[string]int{}
+	// "resumes from the stored state" is not a convergence claim (that is C11): a sweep that in every cycle after ref
+	// serves as many rows as it can (its batch size, or every eligible row; a schedule advances one occurrence per
+	// cycle) has resumed, however large the arrivals (per-second schedules out-produce a promise batch size of one
+	// and never catch up a lag at one cycle per second; the promise sweep reads in no particular order). Only a
+	// sweep that leaves eligible rows behind while serving fewer than it could has not resumed.
+	atFullSpeed := func(prefix, table string, batch int, eligible func(r core.Row, now int64) bool, isServed func(c core.Change) bool) bool {
+		type cyc struct{ eligible, served int }
+		perCycle := map[string]*cyc{}
 		for _, tx := range s.Txs {
 			if tx.Tick <= ref || !strings.HasPrefix(tx.ReqId, prefix) {
 				continue
 			}
-			perCycle[tx.ReqId] += 0
+			cy := perCycle[tx.ReqId]
+			if cy == nil {
+				// the cycle's first transaction is its read: count what was eligible then
+				cy = &cyc{}
+				perCycle[tx.ReqId] = cy
+				for _, row := range tx.Pre[table] {
+					if eligible(row, tx.Dispatch) {
+						cy.eligible++
+					}
+				}
+			}
 			for _, c := range tx.Diff {
 				if c.Table == table && isServed(c) {
-					perCycle[tx.ReqId]++
+					cy.served++
 				}
 			}
 		}
-		m := -1
-		for _, n := range perCycle {
-			if m < 0 || n < m {
-				m = n
+		if len(perCycle) < 3 {
+			return false
+		}
+		for _, cy := range perCycle {
+			if cy.served < min(batch, cy.eligible) {
+				return false
 			}
 		}
-		if len(perCycle) < 3 {
-			return 0
-		}
-		return m
+		return true
 	}
-	promSat := served("TimeoutPromises:", "promises", func(c core.Change) bool {
-		return c.Before != nil && c.After != nil && c.Before.I("state") == pPending && c.After.I("state") != pPending
-	}) >= s.Cfg.PromiseBatchSize
-	schedSat := served("SchedulePromises:", "schedules", func(c core.Change) bool {
-		return c.Before != nil && c.After != nil && c.Before.I("next_run_time") != c.After.I("next_run_time")
-	}) >= s.Cfg.ScheduleBatchSize
+	promSat := atFullSpeed("TimeoutPromises:", "promises", s.Cfg.PromiseBatchSize,
+		func(r core.Row, now int64) bool { return r.I("state") == pPending && r.I("timeout") <= now },
+		func(c core.Change) bool {
+			return c.Before != nil && c.After != nil && c.Before.I("state") == pPending && c.After.I("state") != pPending
+		})
+	schedSat := atFullSpeed("SchedulePromises:", "schedules", s.Cfg.ScheduleBatchSize,
+		func(r core.Row, now int64) bool { return r.I("next_run_time") <= now },
+		func(c core.Change) bool {
+			return c.Before != nil && c.After != nil && c.Before.I("next_run_time") != c.After.I("next_run_time")
+		})
 	var really []string
 	for _, b := range bad {
 		if (strings.HasPrefix(b, "promise ") && promSat) || (strings.HasPrefix(b, "schedule ") && schedSat) {
